@@ -1,9 +1,10 @@
-(* C19 Reference payload/block/crypto code: what is provable here is the structure of the Merkle tree and that the Coq
-   SHA-256 the trees are compared with is the standard function on its test vectors. Collision resistance of SHA-256,
+(* C19 Reference payload/block/crypto code: what is provable here is the structure of the Merkle tree, that the Coq
+   SHA-256 the trees are compared with is the standard function on its test vectors, and the logic of the recovery-message
+   compaction and reconstruction (Ref/Recovery.v: AddPayload, Get*, and which fields the codec carries). Collision resistance of SHA-256,
    ECDSA soundness and the robustness of encoding/gob's decoder are NOT provable (DESIGN.md C19); they are hypotheses
    (collision freedom) or exercised only (monitors of `verifh ref`). *)
 From Coq Require Import List NArith.
-From DbftV Require Import Sha256 Merkle RefModel.
+From DbftV Require Import Sha256 Merkle RefModel Recovery.
 Import ListNotations.
 
 (* any leaf or order change within a list of the same length changes the root - for every pair function without collisions *)
@@ -32,3 +33,101 @@ Theorem sha256_test_vector : sha256 [97; 98; 99]%N =
    0xb0;0x03;0x61;0xa3;0x96;0x17;0x7a;0x9c;0xb4;0x10;0xff;0x61;0xf2;0x00;0x15;0xad]%N.
 Proof. exact sha256_abc. Qed.
 Print Assumptions sha256_test_vector.
+
+(* ------------------------------------------------------------------------------------------------------------------
+   Recovery-message compaction / reconstruction (internal/consensus/recovery_message.go), for EVERY packing sequence.
+   `phash` is the payload hash: any function of the payload's content. *)
+
+(* "a proposal rebuilt from a recovery message has the original's hash": the proposal packed last - whatever was packed
+   before it, whatever but a proposal after it - is rebuilt as itself under a recovery payload of its height and view *)
+Theorem proposal_rebuilt_from_a_recovery_message_is_the_original (phash : payload -> bytes) m before p after r :
+  is_req p = true -> wf_body (p_body p) -> no_req after ->
+  p_height r = p_height p -> p_view r = p_view p ->
+  get_request (build phash m (before ++ p :: after)) r (p_index p) = Some p.
+Proof. exact (rebuilt_request_is_the_original phash m before p after r). Qed.
+Print Assumptions proposal_rebuilt_from_a_recovery_message_is_the_original.
+
+Theorem proposal_rebuilt_from_a_recovery_message_has_the_original_hash (phash : payload -> bytes) m before p after r q :
+  is_req p = true -> wf_body (p_body p) -> no_req after ->
+  p_height r = p_height p -> p_view r = p_view p ->
+  get_request (build phash m (before ++ p :: after)) r (p_index p) = Some q -> phash q = phash p.
+Proof. exact (rebuilt_request_has_the_original_hash phash m before p after r q). Qed.
+Print Assumptions proposal_rebuilt_from_a_recovery_message_has_the_original_hash.
+
+(* "so that rebuilt responses match it": on the packing side every rebuilt response names that proposal's hash, one per
+   packed response, in the packing order *)
+Theorem rebuilt_responses_match_the_packed_proposal (phash : payload -> bytes) m before p after r :
+  is_req p = true -> no_req after ->
+  get_responses (build phash m (before ++ p :: after)) r =
+  map (fun i => from r i (BPrepareResponse (phash p))) (r_preps (build phash m before) ++ map p_index (filter is_resp after)).
+Proof. exact (rebuilt_responses_name_the_packed_request phash m before p after r). Qed.
+Print Assumptions rebuilt_responses_match_the_packed_proposal.
+
+(* packed commits, pre-commits and ChangeViews: none dropped, duplicated or reordered, whatever else is packed *)
+Theorem packed_commits_are_all_rebuilt_in_order (phash : payload -> bytes) ps m r :
+  get_commits (build phash m ps) r = get_commits m r ++ sel is_commit (rebuild_commit r) ps.
+Proof. exact (build_commits phash ps m r). Qed.
+Print Assumptions packed_commits_are_all_rebuilt_in_order.
+Theorem packed_precommits_are_all_rebuilt_in_order (phash : payload -> bytes) ps m r :
+  get_precommits (build phash m ps) r = get_precommits m r ++ sel is_precommit (rebuild_precommit r) ps.
+Proof. exact (build_precommits phash ps m r). Qed.
+Print Assumptions packed_precommits_are_all_rebuilt_in_order.
+Theorem packed_change_views_are_all_rebuilt_in_order (phash : payload -> bytes) ps m r :
+  get_cvs (build phash m ps) r = get_cvs m r ++ sel is_cv (rebuild_cv r) ps.
+Proof. exact (build_cvs phash ps m r). Qed.
+Print Assumptions packed_change_views_are_all_rebuilt_in_order.
+
+(* a Commit / PreCommit of the recovery payload's height and view is rebuilt as itself (a retransmission inside a recovery
+   message is identical to the original); under any header the signer and the signature survive *)
+Theorem commit_rebuilt_under_its_own_height_and_view_is_the_original r p :
+  is_commit p = true -> wf_body (p_body p) -> p_height p = p_height r -> p_view p = p_view r -> rebuild_commit r p = p.
+Proof. exact (rebuild_commit_id r p). Qed.
+Print Assumptions commit_rebuilt_under_its_own_height_and_view_is_the_original.
+Theorem precommit_rebuilt_under_its_own_height_and_view_is_the_original r p :
+  is_precommit p = true -> wf_body (p_body p) -> p_height p = p_height r -> p_view p = p_view r -> rebuild_precommit r p = p.
+Proof. exact (rebuild_precommit_id r p). Qed.
+Print Assumptions precommit_rebuilt_under_its_own_height_and_view_is_the_original.
+Theorem rebuilt_commit_keeps_signer_and_signature r p sig : p_body p = BCommit sig -> length sig = 64%nat ->
+  p_index (rebuild_commit r p) = p_index p /\ p_body (rebuild_commit r p) = BCommit sig /\
+  p_height (rebuild_commit r p) = p_height r /\ p_view (rebuild_commit r p) = p_view r.
+Proof. exact (rebuild_commit_keeps_signer_and_signature r p sig). Qed.
+Print Assumptions rebuilt_commit_keeps_signer_and_signature.
+
+(* across encode/decode: everything the message rebuilds survives, except ... *)
+Theorem codec_keeps_request_commits_precommits_change_views m r i :
+  get_request (transmit m) r i = get_request m r i /\ get_commits (transmit m) r = get_commits m r /\
+  get_precommits (transmit m) r = get_precommits m r /\ get_cvs (transmit m) r = get_cvs m r.
+Proof. exact (conj (transmit_keeps_request m r i) (conj (transmit_keeps_commits m r) (conj (transmit_keeps_precommits m r) (transmit_keeps_cvs m r)))). Qed.
+Print Assumptions codec_keeps_request_commits_precommits_change_views.
+Theorem codec_keeps_responses_when_no_proposal_is_packed m r : r_req m = None -> get_responses (transmit m) r = get_responses m r.
+Proof. exact (transmit_keeps_responses_without_request m r). Qed.
+Print Assumptions codec_keeps_responses_when_no_proposal_is_packed.
+(* ... known finding D19, here for EVERY message that packs the proposal: the receiver rebuilds no response at all *)
+Theorem codec_keeps_responses_packed_with_the_proposal_refuted m r : r_req m <> None -> get_responses (transmit m) r = [].
+Proof. exact (transmit_loses_responses_packed_with_request m r). Qed.
+Print Assumptions codec_keeps_responses_packed_with_the_proposal_refuted.
+
+(* the payload codec at field level: "encoding then decoding any payload the decoder accepts reproduces it" - what the
+   decoder returns is a fixed point of encode/decode, and the only payloads the codec changes are ChangeViews that ask for
+   another view than the next one (the library itself only ever asks for view + 1) *)
+Theorem decoded_payload_is_reproduced_by_the_codec p : transmit_payload (transmit_payload p) = transmit_payload p.
+Proof. exact (transmit_payload_idem p). Qed.
+Print Assumptions decoded_payload_is_reproduced_by_the_codec.
+Theorem codec_changes_only_change_views_for_another_view_than_the_next p :
+  (forall nv ts, p_body p = BChangeView nv ts -> nv = (p_view p + 1) mod 256)%N <-> transmit_payload p = p.
+Proof. exact (transmit_payload_id p). Qed.
+Print Assumptions codec_changes_only_change_views_for_another_view_than_the_next.
+
+(* non-vacuity: a concrete packing sequence (a response, the proposal, a commit, a pre-commit, another response) meets the
+   hypotheses, and the refuted clause bites on it *)
+Example recovery_hypotheses_inhabited :
+  let ph := fun p : payload => [p_index p; p_view p]%N in
+  let req := mkP 10 1 2 (BPrepareRequest 5 77 [[1]; [2]])%N in
+  let ps := [mkP 10 1 3 (BPrepareResponse [9]); req; mkP 10 1 0 (BCommit (repeat 7 64)); mkP 10 1 3 (BPreCommit 258);
+             mkP 10 1 1 (BPrepareResponse [9])]%N in
+  let r := mkP 10 1 0 BOther%N in
+  let m := build ph (new_rmsg None) ps in
+  is_req req = true /\ wf_body (p_body req) /\ no_req (skipn 2 ps) /\
+  get_request m r 2%N = Some req /\ length (get_responses m r) = 2%nat /\ get_responses (transmit m) r = [] /\
+  get_commits m r = [mkP 10 1 0 (BCommit (repeat 7 64))]%N /\ get_precommits m r = [mkP 10 1 3 (BPreCommit 258)]%N.
+Proof. cbv zeta. repeat split; try reflexivity; vm_compute; reflexivity. Qed.
